@@ -118,7 +118,7 @@ func runC01(r *Run) {
 		}
 		r.ErrorsGate(fn, "buildV1SCT:errors", "*", 3)
 		for _, ret := range Returns(fn) {
-			if errKind(ret.Results[1]) != "nil" {
+			if errKind(ret.Results[len(ret.Results)-1]) != "nil" {
 				continue
 			}
 			r.ExpectFields(fn, "buildV1SCT:sct", ret.Results[0], map[string]string{
@@ -374,33 +374,63 @@ func c01ReturnedLeaf(r *Run, fn *ssa.Function) {
 }
 
 // c01LogLeaf: construction of the backend leaf (LeafValue, identity hash, extra data).
+//
+// The rule is stated on what the two exported constructors hand to buildLogLeaf, not on the way
+// its parameter list packages it: "chain" is the input of buildLogLeaf that receives
+// BuildLogLeaf's chain, "chainHash" the one that receives BuildLogLeafWithChainHash's hash
+// (a parameter of its own, or a field of a struct built at the call).
 func c01LogLeaf(r *Run) {
-	if fn := r.Fn("trillian/util.buildLogLeaf"); fn != nil {
+	fn := r.Fn("trillian/util.buildLogLeaf")
+	full := r.Fn("trillian/util.BuildLogLeaf")
+	byHash := r.Fn("trillian/util.BuildLogLeafWithChainHash")
+	var in, inH map[string]string
+	if fn != nil && full != nil && byHash != nil {
+		cf := r.OneCall(full, "BuildLogLeaf", "trillian/util.buildLogLeaf")
+		ch := r.OneCall(byHash, "BuildLogLeafWithChainHash", "trillian/util.buildLogLeaf")
+		if cf != nil && ch != nil {
+			common := []string{"logPrefix", "merkleLeaf", "leafIndex", "cert", "isPrecert"}
+			bf, bh := r.bindCall(cf), r.bindCall(ch)
+			var ok1, ok2 bool
+			in, ok1 = r.roles(bf, "BuildLogLeaf:passes", append([]string{"chain"}, common...),
+				map[string]string{"logPrefix": "p0", "merkleLeaf": "p1", "leafIndex": "p2", "cert": "p3", "chain": "p4", "isPrecert": "p5"})
+			inH, ok2 = r.roles(bh, "BuildLogLeafWithChainHash:passes", append([]string{"chainHash"}, common...),
+				map[string]string{"logPrefix": "p0", "merkleLeaf": "p1", "leafIndex": "p2", "cert": "p3", "chainHash": "p4", "isPrecert": "p5"})
+			if ok1 && ok2 {
+				for _, role := range common {
+					r.Check("buildLogLeaf:input["+role+"]", in[role] == inH[role], r.Where(ch), fmt.Sprintf("both constructors hand their %s to the same input of buildLogLeaf (%s / %s)", role, in[role], inH[role]))
+				}
+				// with the full chain there is no chain hash: that input is nil, so the full layout is chosen
+				r.Check("BuildLogLeaf:passes[no chainHash]", inH["chainHash"] != in["chain"] && bf.slots[inH["chainHash"]] == "nil", r.Where(cf),
+					fmt.Sprintf("BuildLogLeaf hands %s to buildLogLeaf's chain-hash input %s (expected nil)", bf.slots[inH["chainHash"]], inH["chainHash"]))
+			} else {
+				in, inH = nil, nil
+			}
+		}
+	}
+	if fn != nil && in != nil && inH != nil && r.inputsReadOnly(fn, "buildLogLeaf:inputs-read-only") {
+		cert, pre, hash := in["cert"], in["isPrecert"], inH["chainHash"]
+		forChain := "trillian/util.ExtraDataForChain(" + cert + ", " + in["chain"] + ", " + pre + ")#0"
+		forHash := "trillian/util.ExtraDataForChainHash(" + cert + ", " + hash + ", " + pre + ")#0"
 		for _, ret := range Returns(fn) {
-			if errKind(ret.Results[1]) != "nil" {
+			if errKind(ret.Results[len(ret.Results)-1]) != "nil" {
 				continue
 			}
 			r.ExpectFields(fn, "buildLogLeaf", ret.Results[0], map[string]string{
-				"LeafValue":        "tls.Marshal(p1)#0",
-				"LeafIdentityHash": "sha256.Sum256(p3.Data)[:]",
-				"LeafIndex":        "p2",
-				"ExtraData":        "phi(trillian/util.ExtraDataForChain(p3, p4, p6)#0|trillian/util.ExtraDataForChainHash(p3, p5, p6)#0)",
+				"LeafValue":        "tls.Marshal(" + in["merkleLeaf"] + ")#0",
+				"LeafIdentityHash": "sha256.Sum256(" + cert + ".Data)[:]",
+				"LeafIndex":        in["leafIndex"],
+				"ExtraData":        "phi(" + forChain + "|" + forHash + ")",
 			})
 			for _, st := range r.StoresTo(fn, "&("+r.D.allocName(baseAlloc(ret.Results[0]))+".ExtraData)") {
-				gotNil := r.ValueUnder(fn, st.Val, Sigma{"nil?p5": "nil"})
-				gotHash := r.ValueUnder(fn, st.Val, Sigma{"nil?p5": "non"})
-				r.Check("buildLogLeaf:extra[no-hash]", gotNil == "trillian/util.ExtraDataForChain(p3, p4, p6)#0", r.Where(st), "chainHash == nil ⇒ ExtraData ← "+gotNil)
-				r.Check("buildLogLeaf:extra[hash]", gotHash == "trillian/util.ExtraDataForChainHash(p3, p5, p6)#0", r.Where(st), "chainHash != nil ⇒ ExtraData ← "+gotHash)
+				gotNil := r.ValueUnder(fn, st.Val, Sigma{"nil?" + hash: "nil"})
+				gotHash := r.ValueUnder(fn, st.Val, Sigma{"nil?" + hash: "non"})
+				r.Check("buildLogLeaf:extra[no-hash]", gotNil == forChain, r.Where(st), "chainHash == nil ⇒ ExtraData ← "+gotNil)
+				r.Check("buildLogLeaf:extra[hash]", gotHash == forHash, r.Where(st), "chainHash != nil ⇒ ExtraData ← "+gotHash)
 			}
 		}
-		r.ErrorsGate(fn, "buildLogLeaf:errors", "*", 2)
 	}
-	if fn := r.Fn("trillian/util.BuildLogLeaf"); fn != nil {
-		if c := r.OneCall(fn, "BuildLogLeaf", "trillian/util.buildLogLeaf"); c != nil {
-			for i, w := range []string{"p0", "p1", "p2", "p3", "p4", "nil", "p5"} {
-				r.ExpectArg(c, fmt.Sprintf("BuildLogLeaf:arg%d", i), i, w)
-			}
-		}
+	if fn != nil {
+		r.ErrorsGate(fn, "buildLogLeaf:errors", "*", 2)
 	}
 	if fn := r.Fn("trillian/util.ExtraDataForChain"); fn != nil {
 		if c := r.OneCall(fn, "ExtraDataForChain:marshal", "tls.Marshal"); c != nil {
